@@ -362,6 +362,19 @@ class PartialJoin(UnaryOperation):
                     messages=("join-deduplication commutation is not supported",),
                 )
             case Projection():
+                hidden = (current.target.columns - current.columns) & self.fixed.columns
+                if hidden:
+                    # The projection hides columns that the fixed operand also
+                    # has; upstream of the projection the two would collide and
+                    # the join could take those columns from the wrong operand.
+                    return UnaryCommutator(
+                        first=None,
+                        second=current.operation,
+                        done=False,
+                        messages=(
+                            f"{current.operation} hides columns {set(hidden)} also present in {self.fixed}",
+                        ),
+                    )
                 # In order for projection(join(target)) to be equivalent to
                 # join(projection(target)), the new outer projection has to
                 # include the columns added by the join.  Note that because we
